@@ -1,6 +1,7 @@
 """Shared specification vocabulary for feature trees (DESIGN section 3).  Written from the property
 statements, not from the code.  Executable natively; translated to SMT by pyvc."""
-from contracts.api import spec, implies, iff, same, seq_eq
+from contracts.api import spec, lemma, implies, iff, same, seq_eq
+from typing import Optional
 from flamapy.metamodels.fm_metamodel.models import FeatureType
 
 MAND = 1
@@ -113,3 +114,49 @@ def owner_rel(f):
 def feature_class(f: 'Feature') -> int:
     """class of the relation a feature is a child of (0 for the root)"""
     return 0 if f.parent is None else rclass(owner_rel(f))
+
+
+# ---------------------------------------------------------------- tree shape (C16)
+def depth(f):
+    """number of edges from f up to the root"""
+    return 0 if f.parent is None else 1 + depth(f.parent)
+
+
+def assumed_lemma(name, cond):
+    return cond
+
+
+@spec
+def chain(p: 'Optional[Feature]') -> 'list[Feature]':
+    """p, p.parent, ... up to the root"""
+    return [] if p is None else [p] + chain(p.parent)
+
+
+@spec
+def anc(f: 'Feature') -> 'list[Feature]':
+    """ancestors of f: parent first, root last"""
+    return chain(f.parent)
+
+
+@spec
+def leaves(m: 'FeatureModel') -> 'list[Feature]':
+    """the features without children"""
+    return [f for f in feats(m) if len(children(f)) == 0]
+
+
+@lemma
+def lemma_children_count(f: 'Feature') -> bool:
+    """the number of children is the sum of the relation sizes"""
+    return sum(len(r.children) for r in f.relations) == len(children(f))
+
+
+@lemma
+def lemma_leaf_iff_no_relation(f: 'Feature') -> bool:
+    """every relation has at least one child: no children iff no relations"""
+    return (len(children(f)) == 0) == (len(f.relations) == 0)
+
+
+@spec
+def has_leaf(m: 'FeatureModel') -> bool:
+    """a finite tree has a leaf (needs induction on height: assumed in proofs, validated natively)"""
+    return len(leaves(m)) > 0
